@@ -18,7 +18,8 @@ PROPERTY = "C05"
 LEVEL = "exploration"
 RULE = ("random histories (<= 12 events, thorough <= 40) over {connect, peer close, local disable+enable, Select/Deselect/"
         "Linktest/Separate/Reject control messages, responses with matching and non-matching system bytes, data messages "
-        "with/without W-bit (catalogued header-only, uncatalogued, undecodable body), linktest timer expiry} in passive "
+        "with/without W-bit (catalogued header-only, uncatalogued, undecodable body), a link lost inside an inbound frame, "
+        "linktest timer expiry} in passive "
         "and active mode (own Select.req answered, answered with a foreign system, left to T6), plus connect-vs-inbound "
         "Select.req races under yield injection; distinct by (mode, event sequence | race schedule seed); non-trivial "
         "when at least one message was injected while connected")
@@ -117,7 +118,11 @@ class Run:
                 self.rig.wait(lambda: self.rig.state == SEL, 3.0)
             elif select_answer == "foreign":
                 self.rig.pipe.feed(wire.hsms_control(wire.SELECT_RSP, (req.system + 77) & 0xFFFFFFFF))
+                # barrier: messages are dispatched in order, so once the Linktest.rsp is out the Select.rsp before it has been
+                # handled and the state that is sampled next is final (not "not handled yet")
+                self.barrier()
                 self.rig.quiesce(2.0)
+                self.new_frames()
                 self.model = {NS, SEL}   # E37 leaves the reaction to an unsolicited response open
                 self.ctx.count("lenient.foreign_select_rsp")
             else:
@@ -138,6 +143,17 @@ class Run:
         self.rig.pipe.feed(frame[:cut])
         self.rig.quiesce(0.5)
         self.ctx.count("link_lost_inside_a_frame")
+
+    def barrier(self):
+        """Messages are dispatched in arrival order by one thread: once the response to this Linktest.req is out (or the link
+        is gone) everything fed before it has been handled, so a state sampled afterwards is final."""
+        system = next(self.sysgen)
+        self.rig.pipe.feed(wire.hsms_control(wire.LINKTEST_REQ, system))
+
+        def through():
+            return not self.rig.pipe.link_up or any(f.system == system for f in self.peek_frames())
+        if not self.rig.wait(through, 3.0):
+            self.rig.confirm_absent(through)
 
     def ev_peer_close(self):
         self.open_req = None
@@ -204,6 +220,7 @@ class Run:
         was = set(self.model)
         self.rig.pipe.feed(wire.hsms_control(wire.SEPARATE_REQ, system))
         self.injected_connected += 1
+        self.barrier()
         self.rig.quiesce(1.0)
         self.new_frames()
         if was == {SEL}:
@@ -218,6 +235,7 @@ class Run:
         self.hist.append(f"unsolicited {wire.STYPE_NAMES[stype]}({system:#x})")
         self.rig.pipe.feed(wire.hsms_control(stype, system, byte3=self.ctx.rng.choice([0, 0, 1, 4])))
         self.injected_connected += 1
+        self.barrier()
         self.rig.quiesce(1.0)
         self.new_frames()
         self.ctx.count("lenient.unsolicited_response")
